@@ -414,6 +414,113 @@ func (h *vH) runRequests(n int, good vBase) {
 	}
 }
 
+// randomMsg builds a random wire message field by field (small value ranges around the
+// boundaries of every check); parts are signed by a random key about half of the time.
+func (w *vWorld) randomMsg(vals []vValue) *pbv1.QBFTConsensusMsg {
+	r := w.h.rng
+	hashOf := func() []byte {
+		switch r.Intn(6) {
+		case 0:
+			return nil
+		case 1:
+			return make([]byte, 32)
+		case 2:
+			x := make([]byte, 31+r.Intn(3))
+			r.Read(x)
+			return x
+		default:
+			hh := vals[r.Intn(len(vals))].hash
+			return hh[:]
+		}
+	}
+	part := func(duty *pbv1.Duty) *pbv1.QBFTMsg {
+		if r.Intn(25) == 0 {
+			return nil
+		}
+		p := &pbv1.QBFTMsg{Type: int64(r.Intn(8) - 1), PeerIdx: int64(r.Intn(w.n+3) - 1), Round: int64(r.Intn(4) - 1),
+			PreparedRound: int64(r.Intn(4) - 1), ValueHash: hashOf(), PreparedValueHash: hashOf()}
+		if r.Intn(3) > 0 {
+			p.Type = int64(1 + r.Intn(5))
+			p.Round = int64(1 + r.Intn(3))
+			p.PreparedRound = int64(r.Intn(3))
+		}
+		switch r.Intn(8) {
+		case 0:
+		case 1:
+			p.Duty = &pbv1.Duty{Slot: uint64(r.Intn(3)), Type: int32(r.Intn(17) - 1)}
+		default:
+			p.Duty = proto.Clone(duty).(*pbv1.Duty)
+		}
+		switch r.Intn(6) {
+		case 0:
+		case 1:
+			p.Signature = make([]byte, 65)
+			r.Read(p.Signature)
+		case 2:
+			w.resign(p, r.Intn(w.n+2))
+		default:
+			k := int(p.PeerIdx)
+			if k < 0 || k >= w.n {
+				k = r.Intn(w.n + 2)
+			}
+			w.resign(p, k)
+		}
+		return p
+	}
+	duty := &pbv1.Duty{Slot: uint64(500 + r.Intn(2)), Type: int32(1 + r.Intn(2))}
+	m := &pbv1.QBFTConsensusMsg{}
+	if r.Intn(30) > 0 {
+		m.Msg = part(duty)
+	}
+	for k := r.Intn(2*w.n + 3); k > 0 && r.Intn(3) > 0; k-- {
+		m.Justification = append(m.Justification, part(duty))
+	}
+	for k := r.Intn(5); k > 0; k-- {
+		switch r.Intn(8) {
+		case 0:
+			m.Values = append(m.Values, &anypb.Any{TypeUrl: vOtherTypeURLs[r.Intn(len(vOtherTypeURLs))], Value: []byte{byte(r.Intn(256))}})
+		default:
+			m.Values = append(m.Values, vals[r.Intn(len(vals))].any)
+		}
+	}
+	return m
+}
+
+// runRandom: random structured messages on one component (buffers read now and then).
+func (h *vH) runRandom(n int) {
+	w := h.newWorld(n, "random-structured")
+	defer w.finish()
+	var vals []vValue
+	for k := 0; k < 4; k++ {
+		vals = append(vals, w.newValue(k, byte(200+k)))
+	}
+	cnt := 500
+	if h.thorough {
+		cnt = 5000
+	}
+	for k := 0; k < cnt; k++ {
+		m := w.randomMsg(vals)
+		// through the wire encoding, as the p2p layer would hand it over (nil entries do not survive it)
+		var req proto.Message = m
+		if k%2 == 0 {
+			if b, err := proto.Marshal(m); err == nil {
+				dec := new(pbv1.QBFTConsensusMsg)
+				if proto.Unmarshal(b, dec) == nil {
+					req = dec
+				}
+			}
+		}
+		e := vEnvDefault()
+		if w.h.rng.Intn(10) == 0 {
+			e.ctxK = w.h.rng.Intn(4)
+		}
+		w.call(e, req, vCase{base: -1, class: "random-structured", op: "random", expect: "model"})
+		for _, d := range []core.Duty{{Slot: 500, Type: 1}, {Slot: 500, Type: 2}, {Slot: 501, Type: 1}, {Slot: 501, Type: 2}} {
+			w.maybeDrain(d)
+		}
+	}
+}
+
 // runFill: the enqueue is the last step and blocks on a full buffer.
 func (h *vH) runFill(n int, good vBase) {
 	w := h.newWorld(n, "fill")
@@ -548,6 +655,7 @@ func TestVerifC05(t *testing.T) {
 	h.runRequests(firstN, first[2])
 	h.runFill(firstN, first[2])
 	h.runInterleaved(firstN, groups)
+	h.runRandom(firstN)
 	h.runRealGater(t, firstN)
 	h.runDecide(t)
 	h.write("c05.json")
